@@ -483,6 +483,7 @@ def check_c10(tier: str) -> int:
         gen = 4 + (i % 2)
         inst = rand_installation(gen, rng)
         rig = console.ApiRig(inst, rng, record_sends=True)
+        rig.console.stride_pad = rng.choice([0, 0, 2, 4, 12]) if gen == 5 else 0      # consoles with longer status records
         rig.client_err = {}
         script = [("init",), ("connected",)] + [answer_stimulus(inst, k) for k in range(4)]
         for a in inst.acs:       # the console answers the error-text requests the AC status answer provokes
@@ -750,6 +751,7 @@ def check_c14(tier: str) -> int:
         gen = 4 + (i % 2)
         inst = rand_installation(gen, rng)
         rig = console.ApiRig(inst, rng, record_sends=True)
+        rig.console.stride_pad = rng.choice([0, 0, 2, 4, 12]) if gen == 5 else 0
         rig.client_err = {}
         calls = []
         try:
@@ -784,11 +786,21 @@ def check_c14(tier: str) -> int:
                     inst.ac_status[a.number] = rand_ac_status(inst, rng, a.number, error=inst.ac_status[a.number].error_code)
                 for z in inst.zones:
                     inst.zone_status[z] = rand_zone_status(inst, rng, z)
+            unencodable = False
+            if outage > 1 and outage <= 10 * TICK and rng.random() < 0.4:
+                # a command that cannot be encoded (value outside the wire format) is pending when the link comes back:
+                # it is dropped at the flush; the refresh must still take place
+                zs = [z for ac in rig.at.air_conditioners for z in ac.zones if z.has_temp_sensor]
+                if zs:
+                    rig.start(zs[0].set_target_temperature(300.0))
+                    unencodable = True
+                    dist[f"at{gen}_unencodable_command_pending"] += 1
             calls.clear()
             rig.advance(outage)
             rig.net.accept = True
             rig.advance(3 * TICK)
-            replay = {"gen": gen, "mutated": mutate, "outage_ticks": outage, "trigger": {"class": "refresh"}}
+            replay = {"gen": gen, "mutated": mutate, "outage_ticks": outage, "unencodable_command_pending": unencodable,
+                      "trigger": {"class": "refresh"}}
             new_conn = rig.net.current()
             reqs = [q for q in rig.console.requests[n_before:] if new_conn is not None and q[1] == new_conn.cid]
             kinds = [q[2] for q in reqs if q[2] != "error_info"]
